@@ -811,3 +811,21 @@ def phase_helpers(module, seeds):
                 res.add(nm)
                 changed = True
     return res
+
+
+def bound_args(call, callee, skip_self=True):
+    """parameter name -> argument expression for a call of the function definition `callee`
+    (positional and keyword arguments; defaults not filled in)"""
+    a = callee.args
+    names = [x.arg for x in a.posonlyargs + a.args]
+    if skip_self and names and names[0] in ('self', 'cls'):
+        names = names[1:]
+    out = {}
+    for n, v in zip(names, call.args):
+        if isinstance(v, ast.Starred):
+            break
+        out[n] = v
+    for k in call.keywords:
+        if k.arg is not None:
+            out[k.arg] = k.value
+    return out
